@@ -40,11 +40,13 @@ def step' (line : String) : String :=
   | ["D", chunks] => encChars (utf8.decodeIncremental ((splitNE chunks ",").map decChunk))
   | ["W", chunks] => encChars (utf8.decodeWhole ((splitNE chunks ",").map decChunk).flatten)
   | [flags, outc, errc, ins, sched] =>
-    match flags.splitOn "," with
-    | [hi, ht, w, p, eo, tty, ho, sf, rs, hdo, hde] =>
+    match (match flags.splitOn "," with
+           | [hi, ht, w, p, eo, tty, ho, sf, rs, hdo, hde] => [hi, ht, w, p, eo, tty, ho, sf, rs, hdo, hde, "0"]
+           | l => l) with
+    | [hi, ht, w, p, eo, tty, ho, sf, rs, hdo, hde, asy] =>
       let e : Bool := effEcho (if eo == "1" then some true else if eo == "2" then some false else none) (b p) (b tty)
       let s0 := S.init (b hi) (b ht) (b w) (b p) e ((splitNE outc ",").map decChunk) ((splitNE errc ",").map decChunk)
-                  ((splitNE ins ",").map parseIn) (b ho) (b sf) (rs.toNat?.getD 1000)
+                  ((splitNE ins ",").map parseIn) (b ho) (b sf) (rs.toNat?.getD 1000) (b asy)
       let s0 : S := { s0 with hideOut := b hdo, hideErr := b hde }
       let s := run s0 ((splitNE sched ",").filterMap parseEv)
       let alive := (if s.outPc = .read then "out," else "") ++ (if !s.pty && s.errPc = .read then "err," else "")
